@@ -6,7 +6,6 @@
 use crate::core::*;
 use crate::flavor::*;
 use crate::gsweep::{build_world, shapes};
-use crate::model::{check_mirror, check_symmetry};
 use crate::report::*;
 use crate::seqx::Out;
 use serde::{Deserialize, Serialize};
@@ -265,10 +264,9 @@ pub fn run_case<F: Fl>(c: &LCase) -> Result<LRun, (String, String)> {
         Ok(Err(d)) => return Err((class("handle-invalidated"), format!("{}: {}", c.program(F::NAME), d))),
         Err(f) => return Err((class(&format!("after-loop-{}", f.kind())), format!("{}: using the nodes after the loop failed: {}", c.program(F::NAME), f.msg()))),
     };
-    let inv = if F::DIRECTED { check_mirror(&obs) } else { check_symmetry(&obs) };
-    if let Err((code, d)) = inv {
-        return Err((class(&format!("final-{}", code)), format!("{}: {}", c.program(F::NAME), d)));
-    }
+    // (the mirror / symmetry invariants of the final state are C01 / C02's
+    // business; here the effect of the operations must not depend on being
+    // called from inside the loop)
     if fired.get() == c.script.len() {
         let w2 = build_world::<F>(&vals, &c.conns);
         let seq = guarded(|| {
